@@ -51,7 +51,7 @@ def make_env(case, env_cls=None, names=None, syn=None, **opts):
                  "strict": jinja2.StrictUndefined, "debug": jinja2.DebugUndefined}[case["cfg"]["undefined"]]
     cls = env_cls or jinja2.Environment
     kw = dict(loader=DictLoader(srcs), autoescape=lambda name: autos.get(name, False), undefined=undefined,
-              extensions=["jinja2.ext.loopcontrols"])
+              extensions=["jinja2.ext.loopcontrols", "jinja2.ext.do"])
     if syn:
         kw.update(block_start_string=syn[0], block_end_string=syn[1], variable_start_string=syn[2],
                   variable_end_string=syn[3])
